@@ -361,6 +361,70 @@ pub fn check(c: &Case) -> Option<(String, String)> {
     None
 }
 
+struct Boom;
+impl std::fmt::Display for Boom {
+    fn fmt(&self, f: &mut std::fmt::Formatter<'_>) -> std::fmt::Result {
+        f.write_str("par")?;
+        panic!("Display impl of a log argument panics")
+    }
+}
+
+/// Histories on one thread: an encode that does not finish (the sink fails at its k-th write, or a
+/// Display argument panics) followed by a normal encode; the second line must be a single clean object.
+fn failure_histories(rep: &mut Report) {
+    let enc = JsonEncoder::new();
+    let rec = |sink: &mut Sink, msg: &str| {
+        enc.encode(sink, &Record::builder().level(Level::Info).target("t").args(format_args!("{}", msg)).build())
+    };
+    // how many writes does a normal encode need?
+    let mut probe = Sink::new(Some(7));
+    let _ = rec(&mut probe, "first \"record\"");
+    let writes = probe.writes;
+    let mut n = 0u64;
+    for limit in [None, Some(7usize)] {
+        for k in 0..=writes {
+            for second_kind in 0..2 {
+                n += 1;
+                let res = std::thread::spawn(move || {
+                    let enc = JsonEncoder::new();
+                    let mut bad = Sink::failing(limit, k);
+                    let first = catch_panic(|| enc.encode(&mut bad, &Record::builder().level(Level::Info).target("t").args(format_args!("first \"record\"")).build()));
+                    if second_kind == 1 {
+                        // additionally an encode interrupted by a panicking Display argument
+                        let mut s2 = Sink::new(limit);
+                        let _ = catch_panic(|| enc.encode(&mut s2, &Record::builder().level(Level::Warn).target("t").args(format_args!("x{}", Boom)).build()));
+                    }
+                    let mut good = Sink::new(limit);
+                    let second = catch_panic(|| enc.encode(&mut good, &Record::builder().level(Level::Error).target("t2").args(format_args!("second")).build()));
+                    (first.map(|r| r.is_ok()), second.map(|r| r.map_err(|e| e.to_string())), good.buf)
+                })
+                .join();
+                let case = json!({"history": ["encode into a sink whose write #k fails", if second_kind == 1 { "encode with a panicking Display argument" } else { "-" }, "encode normally"], "k": k, "sink_limit": limit});
+                match res {
+                    Err(_) => rep.violation("failure-history:thread-died", "worker thread died", case),
+                    Ok((_, Err(p), _)) => rep.violation(format!("failure-history:panic:{}", panic_site(&p)), p, case),
+                    Ok((_, Ok(Err(e)), _)) => rep.violation("failure-history:second-encode-failed", e, case),
+                    Ok((_, Ok(Ok(())), buf)) => {
+                        let shown = String::from_utf8_lossy(&buf).into_owned();
+                        let one_line = buf.last() == Some(&b'\n') && !buf[..buf.len() - 1].iter().any(|b| *b < 0x20);
+                        let parsed = if one_line { P::parse_document(&buf[..buf.len() - 1]) } else { Err("not one line".into()) };
+                        match parsed {
+                            Ok(J::Obj(m)) if m.iter().any(|(k, v)| k == "message" && *v == J::Str("second".into())) => {}
+                            other => rep.violation(
+                                "failure-history:line-after-failed-encode",
+                                format!("after an unfinished encode the next record was written as {:?} ({:?})", shown, other.map(|_| "wrong object")),
+                                case,
+                            ),
+                        }
+                    }
+                }
+            }
+        }
+    }
+    rep.add("evaluations", n);
+    rep.add("failure_histories", n);
+}
+
 fn strings(alpha: &[&str], max: usize) -> Vec<String> {
     let mut out = vec![String::new()];
     let mut fr = vec![String::new()];
@@ -384,7 +448,8 @@ pub fn run(ctx: &Ctx) -> Report {
         "E-ENUM: every string up to the length bound over {a,\",\\,/,LF,CR,TAB,NUL,U+001F,DEL,é,U+2028,😀,U+FFFF,\\u0008,\\u000c} in one field at a time \
          (message, target, module path, file, thread name, MDC key, MDC value), every pair of fields with strings of length <= 1, all 8 present/absent \
          combinations x 5 levels x line {0,1,u32::MAX}, MDC maps of 0-2 entries; the line must be one strict-JSON object + one newline and parse back \
-         exactly. Non-trivial = case with at least one character that needs escaping or an absent optional field",
+         exactly; plus two/three-step histories on one thread in which an encode is cut short (sink failing at every write position, panicking Display \
+         argument) before a normal encode. Non-trivial = case with at least one character that needs escaping or an absent optional field",
     );
     let alpha = ["a", "\"", "\\", "/", "\n", "\r", "\t", "\0", "\u{1f}", "\u{7f}", "é", "\u{2028}", "😀", "\u{ffff}", "\u{8}", "\u{c}"];
     let maxlen = ctx.tier.pick(3, 4);
@@ -464,6 +529,7 @@ pub fn run(ctx: &Ctx) -> Report {
     for (i, (s, d)) in bad {
         rep.violation(s, d, case_json(&cases[i]));
     }
+    failure_histories(&mut rep);
     rep.sample(case_json(&cases[(ctx.seed as usize * 17 + cases.len() / 3) % cases.len()]));
     rep.sample(case_json(&cases[cases.len() - 7]));
     rep.assume("thread names cannot contain NUL (std restriction); NUL is replaced by U+0001 in that field only");
@@ -471,6 +537,14 @@ pub fn run(ctx: &Ctx) -> Report {
 }
 
 pub fn replay(case: &Value) -> Result<(), String> {
+    if case.get("history").is_some() {
+        let mut rep = Report::new("model_checking");
+        failure_histories(&mut rep);
+        return match rep.violations().first() {
+            Some(v) => Err(format!("{}: {}", v.signature, v.detail)),
+            None => Ok(()),
+        };
+    }
     let c = case_from_json(case).ok_or("bad case")?;
     match check(&c) {
         None => Ok(()),
